@@ -1207,9 +1207,6 @@ impl<T: AbiExportable + ?Sized + 'static> AbiConnection<T> {
         callee_native_definition: AbiTraitDefinition,
     ) -> Result<AbiConnectionTemplate, SavefileError> {
         let mut methods = Vec::with_capacity(caller_native_definition.methods.len());
-        if caller_native_definition.methods.len() > 64 {
-            panic!("Too many method arguments, max 64 are supported!");
-        }
         for caller_native_method in caller_native_definition.methods.into_iter() {
             let Some((callee_native_method_number, callee_native_method)) = callee_native_definition
                 .methods
